@@ -50,6 +50,10 @@ class Engine:
         then reports fewer runs than planned; never a pass/fail decision)."""
         return 240.0 if tier == "quick" else 7200.0
 
+    def extra_meta(self) -> dict:
+        """Static facts about the engine for the evidence file (e.g. catalogue coverage)."""
+        return {}
+
     def setup(self) -> None:
         """Called once in the zygote after import: install seams."""
 
